@@ -370,7 +370,7 @@ func (h *harness) exercise(row authMsg, pl payload, vs []variant) {
 		for _, lv := range levels {
 			// the tx-cache delivery is dominated by A (same handler, writes discarded on error): a rotating quarter
 			// of the authorities gets it, so that every (type, authority class) pair sees it over the payload variants
-			if lv == "T" && (lite || (vi+h.tRot)%4 != 0) {
+			if lv == "T" && (lite || h.config != "" || (vi+h.tRot)%4 != 0) {
 				continue
 			}
 			if lv == "B" && lite {
